@@ -59,7 +59,10 @@ pub fn init_map(interp: &mut Interpreter) {
     interp
         .map_prototype
         .borrow_mut()
-        .set_property(constructor_key, JsValue::Object(constructor.clone()));
+        .define_property(
+            constructor_key,
+            crate::value::Property::with_attributes(JsValue::Object(constructor.clone()), true, false, true),
+        );
 
     // Add Symbol.species getter
     interp.register_species_getter(&constructor);
